@@ -159,6 +159,7 @@ func checkCmd(args []string) {
 	if *update {
 		// the ledger claims only what discharges well under the timeout of a registered run (3x margin)
 		e.opts.TimeoutMs = 2000
+		e.opts.RefuteQF = true
 	}
 	if err := e.load(corePkgs); err != nil {
 		fmt.Fprintln(os.Stderr, "BROKEN: cannot load /repo:", err)
@@ -272,6 +273,10 @@ func checkCmd(args []string) {
 	for _, r := range results {
 		solverMs += r.SolverMs
 	}
+	unprovedFamilies := map[string]bool{}
+	for k := range ledger.Unproved {
+		unprovedFamilies[retFamily(k)] = true
+	}
 	var unprovedNow, knownLines, undecided []string
 	var needReplay []item
 	seenFinding := map[string]bool{}
@@ -295,6 +300,13 @@ func checkCmd(args []string) {
 			continue
 		}
 		if _, ok := ledger.Unproved[o.Name]; ok && !*update {
+			unprovedNow = append(unprovedNow, o.Name)
+			continue
+		}
+		// obligations numbered by return statement: an edit that adds or removes a return renumbers them. A name
+		// that is new (neither proved nor listed on the pinned tree) belongs to the not-claimed family when the
+		// same clause is listed as not claimed at some other return of the function.
+		if !*update && !ledger.proved[o.Name] && unprovedFamilies[retFamily(o.Name)] && retFamily(o.Name) != o.Name {
 			unprovedNow = append(unprovedNow, o.Name)
 			continue
 		}
@@ -513,6 +525,19 @@ func checkCmd(args []string) {
 		}
 	}
 
+	if len(e.engineErrs) > 0 && !*update {
+		// A contract clause that can no longer be evaluated (a field or parameter it names is gone, a call it is
+		// anchored at has a different shape) means the source no longer has the structure the property's contract
+		// describes: on the pinned tree every clause evaluates, so this is reported as a violation of the clause.
+		os.MkdirAll(replayDir, 0755)
+		for i, er := range e.engineErrs {
+			p := filepath.Join(replayDir, fmt.Sprintf("contract_not_applicable_%d.json", i))
+			b, _ := json.MarshalIndent(map[string]interface{}{"property": *prop, "obligation": "contract-applies", "class": "contract", "why": "a contract clause cannot be evaluated on the current source", "detail": er}, "", " ")
+			os.WriteFile(p, b, 0644)
+			violations = append(violations, fmt.Sprintf("VIOLATION property=%s replay=%s no-failing-input-found", *prop, p))
+		}
+	}
+
 	// ---- evidence ------------------------------------------------------------------------------
 	var fnKeys []string
 	contracted := 0
@@ -557,20 +582,23 @@ func checkCmd(args []string) {
 		"derived_contracts":        len(e.derived),
 		"inlined_callees":          len(e.inlined),
 		"external_callees_assumed": sortedKeys(e.externals),
+		"assumed_entry_preconditions":     entryPreconditions(e, results, isRoot),
+		"contracts_applied_at_call_sites": contractsApplied(e, false),
+		"assumed_contracts_applied":       contractsApplied(e, true),
 		"interface_calls_assumed":  sortedKeys(e.invokes),
 		"engine_errors":            e.engineErrs,
 		"technique":                sc.Technique,
 	}
 	ev := Evidence{PropertyID: *prop, Tier: *tier, Seed: seed, Level: "proof", Coverage: cov, Assumptions: assumptions(), WallS: time.Since(t0).Seconds(), Violations: len(violations)}
-	os.MkdirAll(filepath.Join(*vdir, "evidence"), 0755)
-	b, _ := json.MarshalIndent(ev, "", " ")
-	os.WriteFile(filepath.Join(*vdir, "evidence", *prop+".json"), b, 0644)
+	if !*update {
+		// evidence is written by registered runs only (a ledger update also solves the obligations that are not
+		// claimed, so its counts do not describe a check run)
+		os.MkdirAll(filepath.Join(*vdir, "evidence"), 0755)
+		b, _ := json.MarshalIndent(ev, "", " ")
+		os.WriteFile(filepath.Join(*vdir, "evidence", *prop+".json"), b, 0644)
+	}
 	fmt.Printf("property=%s tier=%s functions=%d obligations=%d discharged=%d known-findings=%d unproved(ledger)=%d skipped(ledger,quick)=%d undecided=%d violations=%d wall=%.1fs\n",
 		*prop, *tier, len(fnKeys), nObl, nProved, len(knownLines), len(unprovedNow), nSkipped, len(undecided), len(violations), time.Since(t0).Seconds())
-	if len(e.engineErrs) > 0 && !*update {
-		fmt.Println("BROKEN: engine errors while evaluating contracts")
-		os.Exit(2)
-	}
 	if nObl == 0 {
 		fmt.Println("BROKEN: no obligations generated (vacuous run)")
 		os.Exit(2)
@@ -605,4 +633,44 @@ func assumptions() []string {
 		"loops: cut at the header with Houdini-inferred invariants (candidate set fixed in loops.go) plus invariants from the contract files",
 		"reflect, unsafe, cgo are outside the subset",
 	}
+}
+
+// contractsApplied lists the contracts used at call sites in this run; assumed=true selects the contracts whose
+// bodies are not verified (extern functions, interfaces that user code may implement).
+func contractsApplied(e *Engine, assumed bool) []string {
+	var r []string
+	for _, k := range sortedKeys(e.ctUsed) {
+		if strings.HasPrefix(k, "ASSUMED ") == assumed {
+			r = append(r, strings.TrimPrefix(k, "ASSUMED "))
+		}
+	}
+	return r
+}
+
+var retIdxRe = regexp.MustCompile(`(/ret|:return|_ret|/ret)\d+$`)
+
+// retFamily strips the return-statement ordinal from an obligation name.
+func retFamily(name string) string { return retIdxRe.ReplaceAllString(name, "$1*") }
+
+// entryPreconditions lists the requires clauses of functions that have no caller inside the scope of this run:
+// nothing in the run establishes them, so they are assumptions about the state the function is entered in.
+func entryPreconditions(e *Engine, results []*FnResult, isRoot map[*ssa.Function]bool) []string {
+	called := map[*ssa.Function]bool{}
+	for _, r := range results {
+		for _, cs := range r.CallSites {
+			called[cs.callee] = true
+		}
+	}
+	var out []string
+	for _, r := range results {
+		ct := e.contracts[r.Key]
+		if ct == nil || len(ct.Requires) == 0 || called[r.Fn] {
+			continue
+		}
+		for _, rq := range ct.Requires {
+			out = append(out, r.Key+": requires "+rq.Src)
+		}
+	}
+	sort.Strings(out)
+	return out
 }
